@@ -35,6 +35,7 @@ type rpResponse struct {
 type rpOp struct {
 	id    string
 	resps []rpResponse
+	free  bool // every declared schema is the free-form schema {} (Go type interface{})
 }
 
 func rpStatusMatches(name string, status int) bool {
@@ -111,7 +112,11 @@ func rpSpec(ops []rpOp) []byte {
 			if len(r.media) > 0 {
 				content := map[string]any{}
 				for _, m := range r.media {
-					content[m.ct] = map[string]any{"schema": map[string]any{"type": "object", "properties": map[string]any{"a": map[string]any{"type": "string"}}}}
+					if o.free {
+						content[m.ct] = map[string]any{"schema": map[string]any{}}
+					} else {
+						content[m.ct] = map[string]any{"schema": map[string]any{"type": "object", "properties": map[string]any{"a": map[string]any{"type": "string"}}}}
+					}
 				}
 				rr["content"] = content
 			}
@@ -173,13 +178,17 @@ func runC13(r *Report, rng *rand.Rand, thorough bool) {
 	}
 	// fixed shapes first (the two refuted witnesses and common cases), then random ones
 	ops := []rpOp{
-		{"w1", []rpResponse{{"200", []rpMedia{{"application/json", "json"}, {"text/x-json", "json"}}}, {"default", []rpMedia{{"application/json", "json"}}}}},
-		{"w2", []rpResponse{{"200", []rpMedia{{"application/json", "json"}}}, {"default", []rpMedia{{"application/json", "json"}, {"application/problem+json", "json"}}}}},
-		{"c1", []rpResponse{{"200", []rpMedia{{"application/json", "json"}}}, {"2XX", []rpMedia{{"application/json", "json"}}}, {"default", []rpMedia{{"application/json", "json"}}}}},
-		{"c2", []rpResponse{{"200", []rpMedia{{"application/json", "json"}, {"application/xml", "xml"}, {"application/yaml", "yaml"}}}, {"404", []rpMedia{{"application/problem+json", "json"}}}}},
+		{"w1", []rpResponse{{"200", []rpMedia{{"application/json", "json"}, {"text/x-json", "json"}}}, {"default", []rpMedia{{"application/json", "json"}}}}, false},
+		{"w2", []rpResponse{{"200", []rpMedia{{"application/json", "json"}}}, {"default", []rpMedia{{"application/json", "json"}, {"application/problem+json", "json"}}}}, false},
+		{"c1", []rpResponse{{"200", []rpMedia{{"application/json", "json"}}}, {"2XX", []rpMedia{{"application/json", "json"}}}, {"default", []rpMedia{{"application/json", "json"}}}}, false},
+		{"c2", []rpResponse{{"200", []rpMedia{{"application/json", "json"}, {"application/xml", "xml"}, {"application/yaml", "yaml"}}}, {"404", []rpMedia{{"application/problem+json", "json"}}}}, false},
+		// free-form schemas: the typed field is a *interface{}
+		{"f1", []rpResponse{{"200", []rpMedia{{"application/json", "json"}}}, {"default", []rpMedia{{"application/json", "json"}}}}, true},
 	}
 	for i := len(ops); i < nOps; i++ {
-		ops = append(ops, genRpOp(rng, fmt.Sprintf("r%d", i)))
+		o := genRpOp(rng, fmt.Sprintf("r%d", i))
+		o.free = i%6 == 5
+		ops = append(ops, o)
 	}
 	var pkgs []LabPkg
 	per := 40
@@ -468,7 +477,7 @@ func runC13(r *Report, rng *rand.Rand, thorough bool) {
 		}
 	}
 	pcases.WriteTo(r)
-	r.Rule = "operations with 1-4 declared responses over {200, 201, 404, 500, 2XX, 4XX, 5XX, default} x 0-3 media types each from {application/json, vendor +json (3), hal+json, yaml (2), xml (2), unparsable (2), structured-syntax +xml (2)} (two fixed witnesses and common shapes first), generated client compiled; Parse<Op>Response called on synthesized replies: statuses {200,201,204,299,404,418,500,503} x every declared media type + application/json (+charset) + text/html, and every declared pair answered once with a status only that response matches best (every typed field of the response type must be filled by some declared reply); replies framed with Content-Length or chunked, every other response inspected only after the same function has parsed a later reply, and replies to HEAD requests (announced length, empty body); observed = which typed fields are non-nil, raw body and status; typed request builders (JSON, vendor JSON, form, text) checked for Content-Type and encoding; non-trivial = a declared pair is expected with several responses declared"
+	r.Rule = "operations with 1-4 declared responses over {200, 201, 404, 500, 2XX, 4XX, 5XX, default} x 0-3 media types each from {application/json, vendor +json (3), hal+json, yaml (2), xml (2), unparsable (2), structured-syntax +xml (2)} (two fixed witnesses and common shapes first; every sixth operation declares free-form schemas), generated client compiled; Parse<Op>Response called on synthesized replies: statuses {200,201,204,299,404,418,500,503} x every declared media type + application/json (+charset) + text/html, and every declared pair answered once with a status only that response matches best (every typed field of the response type must be filled by some declared reply); replies framed with Content-Length or chunked, every other response inspected only after the same function has parsed a later reply, and replies to HEAD requests (announced length, empty body); observed = which typed fields are non-nil, raw body and status; typed request builders (JSON, vendor JSON, form, text) checked for Content-Type and encoding; non-trivial = a declared pair is expected with several responses declared"
 }
 
 // rpRepresentative: a status that the named response matches and no more specific declared response does (0 if none).
